@@ -537,4 +537,446 @@ theorem selection_order_nodup (v : Vendor) (rows : List Row) (sample : List Nat)
     exact ⟨i, by omega, rfl⟩
   exact hdisj _ hin _ hmem rfl
 
+/-! ### C17, fourth part: phantom manual records -/
+
+/-- the valid sample numbers of a manifest accounting for `T` cards -/
+def validNum : Vendor → Nat → Nat → Bool
+  | .dominion, T, s => decide (1 ≤ s ∧ s ≤ T)
+  | .hart, T, s => decide (s < T)
+
+/-- sample number `s` denotes a card beyond the `mc` cards the original manifest lists -/
+def inPhantomBatch : Vendor → Nat → Nat → Bool
+  | .dominion, mc, s => decide (mc < s)
+  | .hart, mc, s => decide (mc ≤ s)
+
+theorem before_append_left (l1 l2 : List Nat) (b : Nat) (hb : b ≤ l1.length) :
+    before (l1 ++ l2) b = before l1 b := by
+  unfold before
+  rw [List.take_append_of_le_length hb]
+
+/-- both lookups at once: the batch found, its range, and the position -/
+theorem lookupV_spec (v : Vendor) (sizes : List Nat) (s : Nat) (hs : validNum v sizes.sum s = true) :
+    ∃ b, b < sizes.length ∧
+      lookupV v (cumCards sizes) s = .ok (b, ((s - before sizes b : Nat) : Int)) ∧
+      before sizes b ≤ s ∧
+      (inPhantomBatch v (before sizes b) s = true) ∧ (inPhantomBatch v (before sizes (b + 1)) s = false) := by
+  cases v with
+  | dominion =>
+    simp only [validNum, decide_eq_true_eq] at hs
+    obtain ⟨b, hb, h1, h2⟩ := exists_batch_left sizes s hs.1 hs.2
+    exact ⟨b, hb, lookupLeft_of_batch sizes b s hb h1 h2, by omega, by simp [inPhantomBatch, h1],
+      by simp [inPhantomBatch]; omega⟩
+  | hart =>
+    simp only [validNum, decide_eq_true_eq] at hs
+    obtain ⟨b, hb, h1, h2⟩ := exists_batch_right sizes s hs
+    exact ⟨b, hb, lookupRight_of_batch sizes b s hb h1 h2, h1, by simp [inPhantomBatch, h1],
+      by simp [inPhantomBatch]; omega⟩
+
+theorem inPhantomBatch_mono (v : Vendor) {a b s : Nat} (h : a ≤ b) (hb : inPhantomBatch v b s = true) :
+    inPhantomBatch v a s = true := by
+  cases v <;> simp only [inPhantomBatch, decide_eq_true_eq] at hb ⊢ <;> omega
+
+/-- on a prepared manifest every valid sample number is found, and the card found carries the
+tabulator name `phantom` exactly when the number lies beyond the cards the original manifest lists -/
+theorem entry_phantom (v : Vendor) (rows rows' : List Row) (maxCards nCvrs mc ph : Nat)
+    (hreal : ∀ r ∈ rows, r.tab ≠ "phantom")
+    (hprep : prepRows v rows maxCards nCvrs = .ok (rows', mc, ph))
+    (s : Nat) (hs : validNum v maxCards s = true) :
+    ∃ e, entry v rows' s = .ok e ∧ ((e.tab == "phantom") = inPhantomBatch v mc s) := by
+  obtain ⟨hmc, hph, hle, _, hrows, hsum, _⟩ := prepRows_ok v rows rows' maxCards nCvrs mc ph hprep
+  rw [← hsum] at hs
+  obtain ⟨b, hb, hlook, _, hin, hout⟩ := lookupV_spec v (rows'.map (·.size)) s hs
+  have hb' : b < rows'.length := by simpa using hb
+  refine ⟨{ extra := rows'[b].extra, tab := rows'[b].tab, batch := rows'[b].batch,
+            cardInBatch := ((s - before (rows'.map (·.size)) b : Nat) : Int),
+            cardId := cardIdOf rows'[b].tab rows'[b].batch ((s - before (rows'.map (·.size)) b : Nat) : Int),
+            s := s }, ?_, ?_⟩
+  · unfold entry
+    rw [hlook]
+    simp [List.getElem?_eq_getElem hb']
+  · simp only
+    by_cases hbr : b < rows.length
+    · -- a listed batch
+      have hrow : rows'[b] = rows[b] := by
+        subst hrows
+        split
+        · exact List.getElem_append_left hbr
+        · rfl
+      have hne : rows'[b].tab ≠ "phantom" := by rw [hrow]; exact hreal _ (List.getElem_mem _)
+      have hbefore : before (rows'.map (·.size)) (b + 1) = before (rows.map (·.size)) (b + 1) := by
+        subst hrows
+        split
+        · rw [List.map_append]; exact before_append_left _ _ _ (by simp; omega)
+        · rfl
+      have hle2 : before (rows.map (·.size)) (b + 1) ≤ mc := by rw [hmc]; exact before_le_sum _ _
+      have : inPhantomBatch v mc s = false := by
+        cases hq : inPhantomBatch v mc s with
+        | false => rfl
+        | true =>
+          have := inPhantomBatch_mono v hle2 hq
+          rw [← hbefore, hout] at this
+          cases this
+      rw [this]
+      simpa using hne
+    · -- the appended batch
+      have hlt : mc < maxCards := by
+        by_cases hlt : mc < maxCards
+        · exact hlt
+        · exfalso; subst hrows; simp only [hlt, if_false] at hb'; omega
+      have hr : rows' = rows ++ [phantomRow v ph] := by rw [hrows]; simp [hlt]
+      have hbeq : b = rows.length := by
+        rw [hr] at hb'; simp at hb'; omega
+      have hrow : rows'[b] = phantomRow v ph := by
+        subst hr; subst hbeq; simp
+      have hbefore : before (rows'.map (·.size)) b = mc := by
+        rw [hr, hbeq, List.map_append, before_append_left _ _ _ (by simp), hmc]
+        have := before_length (rows.map (·.size))
+        simpa using this
+      rw [hbefore] at hin
+      rw [hin, hrow]
+      simp [phantomRow]
+
+/-- **phantom_exact.** After `prep_manifest` (real batches never named `phantom`), for every sample of
+valid numbers `sample_from_manifest` returns, and the phantom manual records it returns are — in draw
+order — exactly the cards whose number lies beyond the listed cards, i.e. in the appended phantom batch;
+each record's id is that card's id. -/
+theorem phantom_exact (v : Vendor) (rows rows' : List Row) (maxCards nCvrs mc ph : Nat)
+    (hreal : ∀ r ∈ rows, r.tab ≠ "phantom")
+    (hprep : prepRows v rows maxCards nCvrs = .ok (rows', mc, ph))
+    (sample : List Nat) (hvalid : ∀ s ∈ sample, validNum v maxCards s = true) :
+    ∃ cards so mvrs es, sampleFromManifest v rows' sample = .ok (cards, so, mvrs) ∧
+      entries v rows' sample = .ok es ∧
+      mvrs = (es.filter (fun e => inPhantomBatch v mc e.s)).map (·.cardId) := by
+  have hall : ∀ s ∈ sample, ∃ e, entry v rows' s = .ok e := by
+    intro s hs
+    obtain ⟨e, he, _⟩ := entry_phantom v rows rows' maxCards nCvrs mc ph hreal hprep s (hvalid s hs)
+    exact ⟨e, he⟩
+  obtain ⟨es, hes⟩ := mapE_of_forall (entry v rows') sample hall
+  have hes' : entries v rows' sample = .ok es := hes
+  refine ⟨_, _, _, es, by unfold sampleFromManifest; rw [hes'], hes', ?_⟩
+  congr 1
+  apply List.filter_congr
+  intro e he
+  obtain ⟨s, hs, hse⟩ := mapE_mem _ _ _ hes e he
+  obtain ⟨e', he', hph⟩ := entry_phantom v rows rows' maxCards nCvrs mc ph hreal hprep s (hvalid s hs)
+  rw [hse] at he'
+  simp only [Except.ok.injEq] at he'
+  subst he'
+  rw [entry_s v rows' s e hse]
+  exact hph
+
+/-! ### C17, fifth part: looking cards up from sampled CVRs -/
+
+/-- inverse of `splitOnC`: Python `c.join(parts)` -/
+def joinC (c : Char) : List (List Char) → List Char
+  | [] => []
+  | [x] => x
+  | x :: y :: r => x ++ c :: joinC c (y :: r)
+
+theorem splitOnC_ne_nil (c : Char) (l : List Char) : splitOnC c l ≠ [] := by
+  cases l with
+  | nil => simp [splitOnC]
+  | cons x xs =>
+    simp only [splitOnC]
+    split
+    · simp
+    · split <;> simp
+
+theorem joinC_splitOnC (c : Char) (l : List Char) : joinC c (splitOnC c l) = l := by
+  induction l with
+  | nil => simp [splitOnC, joinC]
+  | cons x xs ih =>
+    simp only [splitOnC]
+    cases hsp : splitOnC c xs with
+    | nil => exact absurd hsp (splitOnC_ne_nil c xs)
+    | cons h t =>
+      rw [hsp] at ih
+      split
+      · rename_i hx
+        subst hx
+        simp only [joinC, List.nil_append, ih]
+      · cases t with
+        | nil => simp only [joinC] at ih ⊢; rw [ih]
+        | cons y r => simp only [joinC, List.cons_append] at ih ⊢; rw [ih]
+
+theorem split3_join (c : Char) (s a b d : String) (h : splitOn c s = [a, b, d]) :
+    s = a ++ String.singleton c ++ b ++ String.singleton c ++ d := by
+  unfold splitOn at h
+  have hj := joinC_splitOnC c s.toList
+  cases hsp : splitOnC c s.toList with
+  | nil => rw [hsp] at h; simp at h
+  | cons a' t =>
+    cases t with
+    | nil => rw [hsp] at h; simp at h
+    | cons b' t =>
+      cases t with
+      | nil => rw [hsp] at h; simp at h
+      | cons d' t =>
+        cases t with
+        | cons _ _ => rw [hsp] at h; simp at h
+        | nil =>
+          rw [hsp] at h hj
+          simp only [List.map_cons, List.map_nil, List.cons.injEq, and_true] at h
+          obtain ⟨rfl, rfl, rfl⟩ := h
+          apply String.toList_inj.1
+          simp only [String.toList_append, String.toList_ofList, String.toList_singleton]
+          rw [← hj]
+          simp [joinC]
+
+theorem split2_join (c : Char) (s a b : String) (h : splitOn c s = [a, b]) :
+    s = a ++ String.singleton c ++ b := by
+  unfold splitOn at h
+  have hj := joinC_splitOnC c s.toList
+  cases hsp : splitOnC c s.toList with
+  | nil => rw [hsp] at h; simp at h
+  | cons a' t =>
+    cases t with
+    | nil => rw [hsp] at h; simp at h
+    | cons b' t =>
+      cases t with
+      | cons _ _ => rw [hsp] at h; simp at h
+      | nil =>
+        rw [hsp] at h hj
+        simp only [List.map_cons, List.map_nil, List.cons.injEq, and_true] at h
+        obtain ⟨rfl, rfl⟩ := h
+        apply String.toList_inj.1
+        simp only [String.toList_append, String.toList_ofList, String.toList_singleton]
+        rw [← hj]
+        simp [joinC]
+
+/-- what one iteration of `sample_from_cvrs` yields: the CVR at that index, and a card whose
+identifier is the CVR's (for a Hart phantom: provided the id's first `-`-field is the word `phantom`,
+as in the ids `phantom-1-k` that the audit creates) -/
+theorem centry_spec (v : Vendor) (cvrs : List Cvr) (rows : List Row) (s : Nat) (e : CEntry)
+    (h : centry v cvrs rows s = .ok e) :
+    cvrs[s]? = some e.cvr ∧ e.s = s ∧ e.cardId ∈ e.cells ∧
+    ((v = .dominion ∨ e.cvr.phantom = false ∨ (splitOn '-' e.cvr.id).head? = some "phantom") →
+      e.cardId = e.cvr.id) := by
+  cases v with
+  | dominion =>
+    simp only [centry, centryDominion] at h
+    split at h
+    · cases h
+    · rename_i c hc
+      split at h
+      · rename_i tab batch num hsp
+        have hid := split3_join '-' c.id tab batch num hsp
+        split at h
+        · split at h
+          · cases h
+          · simp only [Except.ok.injEq] at h
+            subst h
+            exact ⟨hc, rfl, by simp, fun _ => hid.symm⟩
+        · simp only [Except.ok.injEq] at h
+          subst h
+          exact ⟨hc, rfl, by simp, fun _ => hid.symm⟩
+      · cases h
+  | hart =>
+    simp only [centry, centryHart] at h
+    split at h
+    · cases h
+    · rename_i c hc
+      split at h
+      · rename_i hph
+        split at h
+        · rename_i batch num hsp
+          have hid := split2_join '_' c.id batch num hsp
+          split at h
+          · cases h
+          · simp only [Except.ok.injEq] at h
+            subst h
+            exact ⟨hc, rfl, by simp, fun _ => hid.symm⟩
+        · cases h
+      · rename_i hph
+        split at h
+        · rename_i word batch num hsp
+          have hid := split3_join '-' c.id word batch num hsp
+          simp only [Except.ok.injEq] at h
+          subst h
+          refine ⟨hc, rfl, by simp, ?_⟩
+          intro hor
+          rcases hor with hv | hp | hw
+          · cases hv
+          · simp only at hp; simp [hp] at hph
+          · simp only at hw
+            rw [hsp] at hw
+            simp only [List.head?_cons, Option.some.injEq] at hw
+            subst hw
+            exact hid.symm
+        · cases h
+
+/-- **from_cvrs_order.** When `sample_from_cvrs` returns: `cvr_sample` is `cvr_list[s]` for the drawn
+`s`, in draw order; the phantom manual records are the drawn phantom CVRs (same ids, draw order);
+`cards` lists one card per draw (re-ordered by the final sort) whose identifier is the drawn CVR's id;
+and `sample_order[that id]` holds the draw index and `serial = s + 1` (for a card not drawn again later). -/
+theorem from_cvrs_order (v : Vendor) (cvrs : List Cvr) (rows : List Row) (sample : List Nat)
+    (cards : List CEntry) (so : List (String × Order)) (cs : List Cvr) (ph : List String)
+    (h : sampleFromCvrs v cvrs rows sample = .ok (cards, so, cs, ph)) :
+    cs.length = sample.length ∧
+    (∀ i (h1 : i < sample.length) (h2 : i < cs.length), cvrs[sample[i]]? = some cs[i]) ∧
+    ph = (cs.filter (·.phantom)).map (·.id) ∧
+    ∃ es : List CEntry, cards.Perm es ∧ es.map (·.cvr) = cs ∧
+      (∀ e ∈ es, e.cardId ∈ e.cells ∧
+        ((v = .dominion ∨ e.cvr.phantom = false ∨ (splitOn '-' e.cvr.id).head? = some "phantom") →
+          e.cardId = e.cvr.id)) ∧
+      (∀ i (h1 : i < sample.length) (h2 : i < es.length),
+        es[i].cardId ∉ (es.drop (i + 1)).map (·.cardId) →
+          dictGet so es[i].cardId = some { selectionOrder := i, serial := sample[i] + 1 }) := by
+  unfold sampleFromCvrs at h
+  split at h
+  · cases h
+  · rename_i es hes
+    simp only [Except.ok.injEq, Prod.mk.injEq] at h
+    obtain ⟨rfl, rfl, rfl, rfl⟩ := h
+    obtain ⟨hl, hi⟩ := mapE_ok _ _ _ hes
+    refine ⟨by simpa using hl, ?_, ?_, es, List.mergeSort_perm _ _, rfl, ?_, ?_⟩
+    · intro i h1 h2
+      have h2' : i < es.length := by simpa using h2
+      have := (centry_spec v cvrs rows _ _ (hi i h1 h2')).1
+      simpa using this
+    · simp [List.filter_map, Function.comp_def]
+    · intro e he
+      obtain ⟨s, _, hse⟩ := mapE_mem _ _ _ hes e he
+      have := centry_spec v cvrs rows s e hse
+      exact ⟨this.2.2.1, this.2.2.2⟩
+    · intro i h1 h2 hnot
+      have hs : es[i].s = sample[i] := (centry_spec v cvrs rows _ _ (hi i h1 h2)).2.1
+      have hj : i < (es.map (fun e => (e.cardId, e.s))).length := by simpa using h2
+      have hconv : ((es.map (fun e => (e.cardId, e.s))).drop (i + 1)).map (·.1)
+          = (es.drop (i + 1)).map (·.cardId) := by
+        simp [List.map_drop, List.map_map, Function.comp_def]
+      have := orderLoop_at (es.map (fun e => (e.cardId, e.s))) [] 0 i hj
+        (by rw [hconv]; simpa using hnot)
+      simpa [hs] using this
+
+/-! ### Card identifiers of distinct cards are distinct (so `sample_order` never merges two cards) -/
+
+/-- distinct batches never share a card identifier — true e.g. of distinct hyphen-free
+tabulator/batch labels; this is a property of the jurisdiction's labels, not of the code -/
+def LabelsSeparate (rows : List Row) : Prop :=
+  ∀ i j (hi : i < rows.length) (hj : j < rows.length) (p q : Int),
+    cardIdOf rows[i].tab rows[i].batch p = cardIdOf rows[j].tab rows[j].batch q → i = j
+
+theorem cardIdOf_inj_pos (tab batch : String) (p q : Int)
+    (h : cardIdOf tab batch p = cardIdOf tab batch q) : p = q := by
+  unfold cardIdOf at h
+  have h' := String.toList_inj.2 h
+  simp only [String.toList_append] at h'
+  have h2 := List.append_cancel_left h'
+  have h3 : toString p = toString q := String.toList_inj.1 h2
+  exact Int.repr_injective h3
+
+theorem entry_of_lookup (v : Vendor) (rows : List Row) (s b : Nat) (pos : Int) (hb : b < rows.length)
+    (h : lookupV v (cumCards (rows.map (·.size))) s = .ok (b, pos)) :
+    entry v rows s = .ok { extra := rows[b].extra, tab := rows[b].tab, batch := rows[b].batch,
+                           cardInBatch := pos, cardId := cardIdOf rows[b].tab rows[b].batch pos, s := s } := by
+  unfold entry
+  rw [h]
+  simp [List.getElem?_eq_getElem hb]
+
+/-- two valid sample numbers whose cards get the same identifier are the same number -/
+theorem entry_ids_injective (v : Vendor) (rows : List Row) (hsep : LabelsSeparate rows) (s s' : Nat)
+    (hs : validNum v (rows.map (·.size)).sum s = true) (hs' : validNum v (rows.map (·.size)).sum s' = true)
+    (e e' : Entry) (he : entry v rows s = .ok e) (he' : entry v rows s' = .ok e')
+    (hid : e.cardId = e'.cardId) : s = s' := by
+  obtain ⟨b, hb, hl, hle, _, _⟩ := lookupV_spec v _ s hs
+  obtain ⟨b', hb', hl', hle', _, _⟩ := lookupV_spec v _ s' hs'
+  have hbl : b < rows.length := by simpa using hb
+  have hbl' : b' < rows.length := by simpa using hb'
+  rw [entry_of_lookup v rows s b _ hbl hl] at he
+  rw [entry_of_lookup v rows s' b' _ hbl' hl'] at he'
+  simp only [Except.ok.injEq] at he he'
+  subst he; subst he'
+  simp only at hid
+  have hbb := hsep b b' hbl hbl' _ _ hid
+  subst hbb
+  have := cardIdOf_inj_pos _ _ _ _ hid
+  omega
+
+theorem cardIds_nodup (v : Vendor) (rows : List Row) (hsep : LabelsSeparate rows) (sample : List Nat)
+    (hnd : sample.Nodup) (hvalid : ∀ s ∈ sample, validNum v (rows.map (·.size)).sum s = true)
+    (es : List Entry) (hes : entries v rows sample = .ok es) : (es.map (·.cardId)).Nodup := by
+  unfold entries at hes
+  induction sample generalizing es with
+  | nil => simp only [mapE, Except.ok.injEq] at hes; subst hes; simp
+  | cons a as ih =>
+    simp only [mapE] at hes
+    split at hes
+    · cases hes
+    · rename_i e hea
+      split at hes
+      · cases hes
+      · rename_i es' hes'
+        simp only [Except.ok.injEq] at hes
+        subst hes
+        have hnd' := List.nodup_cons.1 hnd
+        simp only [List.map_cons, List.nodup_cons]
+        refine ⟨?_, ih hnd'.2 (fun s hs => hvalid s (by simp [hs])) es' hes'⟩
+        intro hmem
+        obtain ⟨e', he'mem, hid⟩ := List.mem_map.1 hmem
+        obtain ⟨a', ha', hea'⟩ := mapE_mem _ _ _ hes' e' he'mem
+        have := entry_ids_injective v rows hsep a a' (hvalid a (by simp)) (hvalid a' (by simp [ha']))
+          e e' hea hea' hid.symm
+        subst this
+        exact hnd'.1 ha'
+
+/-! ### Non-vacuity: concrete instances (tests of the statements, not of the theorems) -/
+
+-- a manifest with empty batches first, in the middle and last: sizes 0,2,0,3,0 (T = 5)
+example : (List.range 7).map (fun s => lookupLeft (cumCards [0, 2, 0, 3, 0]) s) =
+    [.ok (4, -5), .ok (1, 1), .ok (1, 2), .ok (3, 1), .ok (3, 2), .ok (3, 3), .error .IndexError] := by rfl
+example : (List.range 6).map (fun s => lookupRight (cumCards [0, 2, 0, 3, 0]) s) =
+    [.ok (1, 0), .ok (1, 1), .ok (3, 0), .ok (3, 1), .ok (3, 2), .error .IndexError] := by rfl
+-- hypotheses of the bijection theorems are satisfiable: s = 3 lies in 1..5 resp. 0..4
+example : 1 ≤ 3 ∧ 3 ≤ [0, 2, 0, 3, 0].sum ∧ 3 < [0, 2, 0, 3, 0].length ∧ 1 ≤ 2 ∧ 2 ≤ sizeOf [0, 2, 0, 3, 0] 3 := by decide
+-- prep: phantom batch appended / exact / refused (too many cards) / refused (too many CVRs)
+example : prepManifest [2, 0, 3] 7 4 = .ok ([2, 0, 3, 2], 5, 2) := by rfl
+example : prepManifest [2, 0, 3] 5 5 = .ok ([2, 0, 3], 5, 0) := by rfl
+example : prepManifest [2, 0, 3] 4 0 = .error .AssertionError := by rfl
+example : prepManifest [2, 0, 3] 9 6 = .error .AssertionError := by rfl
+
+def exRows : List Row :=
+  [{ tab := "17", batch := "1", size := 2, extra := ["1", "1"] },
+   { tab := "18", batch := "2", size := 0, extra := ["2", "2"] },
+   { tab := "19", batch := "3", size := 3, extra := ["3", "3"] }]
+
+-- hypotheses of `phantom_exact`: real rows not named phantom, prep succeeds, a valid sample
+example : (∀ r ∈ exRows, r.tab ≠ "phantom") := by decide
+example : ∃ rows', prepRows .dominion exRows 7 4 = .ok (rows', 5, 2) ∧ rows'.length = 4 := ⟨_, rfl, rfl⟩
+example : ∀ s ∈ [7, 3, 1, 6], validNum .dominion 7 s = true := by decide
+
+-- hypothesis of `from_cvrs_order` / `selection_order`: the functions return on ordinary input
+example : ∃ r, sampleFromCvrs .dominion
+    [{ id := "17-1-1", cardInBatch := some 1, phantom := false }, { id := "phantom-1-1", cardInBatch := none, phantom := true }]
+    exRows [1, 0] = .ok r := ⟨_, rfl⟩
+example : ∃ r, sampleFromCvrs .hart
+    [{ id := "3_1", cardInBatch := none, phantom := false }, { id := "phantom-1-1", cardInBatch := none, phantom := true }]
+    exRows [1, 0] = .ok r := ⟨_, rfl⟩
+example : (splitOn '-' "phantom-1-7").head? = some "phantom" := by decide
+
+theorem cardIdOf_ne_of_prefix (t b t' b' : String) (p q : Int)
+    (h : ∀ x y : List Char, (t ++ "-" ++ b ++ "-").toList ++ x ≠ (t' ++ "-" ++ b' ++ "-").toList ++ y) :
+    cardIdOf t b p ≠ cardIdOf t' b' q := by
+  intro he
+  unfold cardIdOf at he
+  have h' := String.toList_inj.2 he
+  rw [String.toList_append, String.toList_append (s := t' ++ "-" ++ b' ++ "-")] at h'
+  exact h _ _ h'
+
+-- hypothesis of `cardIds_nodup` / `entry_ids_injective`: the labels of `exRows` separate the batches
+example : LabelsSeparate exRows := by
+  intro i j hi hj p q h
+  have hi' : i < 3 := hi
+  have hj' : j < 3 := hj
+  match i, j, hi', hj' with
+  | 0, 0, _, _ => rfl
+  | 1, 1, _, _ => rfl
+  | 2, 2, _, _ => rfl
+  | 0, 1, _, _ => exact absurd h (cardIdOf_ne_of_prefix _ _ _ _ _ _ (by intro x y; simp [exRows]))
+  | 0, 2, _, _ => exact absurd h (cardIdOf_ne_of_prefix _ _ _ _ _ _ (by intro x y; simp [exRows]))
+  | 1, 0, _, _ => exact absurd h (cardIdOf_ne_of_prefix _ _ _ _ _ _ (by intro x y; simp [exRows]))
+  | 1, 2, _, _ => exact absurd h (cardIdOf_ne_of_prefix _ _ _ _ _ _ (by intro x y; simp [exRows]))
+  | 2, 0, _, _ => exact absurd h (cardIdOf_ne_of_prefix _ _ _ _ _ _ (by intro x y; simp [exRows]))
+  | 2, 1, _, _ => exact absurd h (cardIdOf_ne_of_prefix _ _ _ _ _ _ (by intro x y; simp [exRows]))
+
 end Shangrla.C17
